@@ -341,19 +341,13 @@ func (g *Gen) execInstr(fr *Frame, st *State, in ssa.Instruction, r string) bool
 
 func (g *Gen) newRef(prefix string) string {
 	n := g.vc.freshConst(prefix, "Int")
-	g.vc.lines = append(g.vc.lines, fmt.Sprintf("(assert (> %s 0))", n))
-	for _, o := range g.vc.allocs {
-		g.vc.lines = append(g.vc.lines, fmt.Sprintf("(assert (not (= %s %s)))", n, o))
-	}
 	g.vc.allocs = append(g.vc.allocs, n)
 	if g.vc.allocSet == nil {
 		g.vc.allocSet = map[string]bool{}
 	}
 	g.vc.allocSet[n] = true
-	if len(g.vc.allocs) > 40 {
-		g.vc.allocs = g.vc.allocs[1:]
-	}
-	g.vc.lines = append(g.vc.lines, fmt.Sprintf("(assert (fresh$ %s))", n))
+	// fresh objects are non-nil, pairwise distinct (distinct allocation ids) and marked fresh
+	g.vc.decls = append(g.vc.decls, fmt.Sprintf("(assert (and (> %s 0) (= (allocid$ %s) %d) (fresh$ %s)))", n, n, len(g.vc.allocs), n))
 	return n
 }
 
@@ -882,13 +876,57 @@ func (g *Gen) makeInterface(v Val, from, to types.Type) Val {
 		return g.freshVal("mi", to)
 	}
 	box, un, tag := g.boxFn(from)
-	t := g.vc.define("ifc", "Int", fmt.Sprintf("(%s %s)", box, v.T))
-	g.vc.lines = append(g.vc.lines, fmt.Sprintf("(assert (and (= (%s %s) %s) (= (dyntype$ %s) %d) (not (= %s 0))))", un, t, v.T, t, tag, t))
+	t := g.vc.freshConst("ifc", "Int")
+	g.vc.lines = append(g.vc.lines, fmt.Sprintf("(assert (and (= %s (%s %s)) (= (%s %s) %s) (= (dyntype$ %s) %d) (not (= %s 0))))", t, box, v.T, un, t, v.T, t, tag, t))
 	out := Val{T: t, S: "Int", Ty: to, Clo: v.Clo}
 	if v.Ptr != nil {
 		out.Ptr = v.Ptr
 	}
+	g.unwrapFacts(t, v, from)
 	return out
+}
+
+// unwrapFacts: for an in-module struct type with `func (e T) Unwrap() error { return e.<field> }`,
+// errors.Is on the boxed value looks through that field.
+func (g *Gen) unwrapFacts(boxed string, v Val, from types.Type) {
+	named, ok := types.Unalias(from).(*types.Named)
+	if !ok || !g.isRepoPkg(named.Obj().Pkg()) {
+		return
+	}
+	st, ok := named.Underlying().(*types.Struct)
+	if !ok {
+		return
+	}
+	var m *types.Func
+	for i := 0; i < named.NumMethods(); i++ {
+		if named.Method(i).Name() == "Unwrap" {
+			m = named.Method(i)
+		}
+	}
+	if m == nil {
+		return
+	}
+	fn := g.prog.FuncValue(m)
+	if fn == nil || len(fn.Blocks) != 1 {
+		return
+	}
+	// find `return <field of receiver>`
+	var fieldIdx = -1
+	for _, in := range fn.Blocks[0].Instrs {
+		if f, ok := in.(*ssa.Field); ok {
+			fieldIdx = f.Field
+		}
+		if f, ok := in.(*ssa.FieldAddr); ok {
+			fieldIdx = f.Field
+		}
+	}
+	if fieldIdx < 0 || fieldIdx >= st.NumFields() || g.sortOf(st.Field(fieldIdx).Type()) != "Int" {
+		return
+	}
+	g.declIs()
+	key := g.structKey(from)
+	inner := fmt.Sprintf("(%s %s)", g.fieldSel(key, st.Field(fieldIdx).Name(), fieldIdx), v.T)
+	g.vc.assume("", fmt.Sprintf("(forall ((t Int)) (! (= (p$Is %s t) (or (= %s t) (p$Is %s t))) :pattern ((p$Is %s t))))", boxed, boxed, inner, boxed))
 }
 
 func (g *Gen) typeAssert(fr *Frame, x *ssa.TypeAssert, r string) Val {
